@@ -590,7 +590,7 @@ func c16cacheAs(c *Ctx, rule string, timersOnly bool) {
 	if f := c.fn(rule, colPkg, "(*Cache).SetWithExpire"); f != nil {
 		keyP, valP := f.Params[1], f.Params[2]
 		ps := c.paths(rule, f, px.Config{})
-		c.forall(rule, colPkg+".(*Cache).SetWithExpire", "under the lock: data[key] = value and the key's LRU position is refreshed — for new and for overwritten keys alike; then the timer is moved when the key existed, set otherwise, with the jittered expiry", f, ps, func(p *px.Path) (bool, string) {
+		c.forall(rule, colPkg+".(*Cache).SetWithExpire", "under the lock: data[key] = value and the key's LRU position is refreshed — for new and for overwritten keys alike; then the timer is (re)armed with the jittered expiry through an operation that cannot fire at once (SetTimer; MoveTimer only with an expiry compared against a bound)", f, ps, func(p *px.Path) (bool, string) {
 			if p.Exit != px.ExitReturn {
 				return true, ""
 			}
@@ -602,28 +602,42 @@ func c16cacheAs(c *Ctx, rule string, timersOnly bool) {
 			if len(adds) != 1 || !isParam(adds[0].Call.Args[0], keyP) {
 				return false, fmt.Sprintf("lruCache.add(key) ×%d: an overwritten key must also move to the front, otherwise a just-written key is evicted before keys used earlier", len(adds))
 			}
-			lk := p.First(px.KindIs(px.EvLookup))
-			if lk == nil || lk.Seq > ups[0].Seq {
-				return false, "prior presence not read before the store"
-			}
-			existed := findExtract(p, lk.Res, 1)
 			mv := p.All(calleeIs(colPkg + ".(*TimingWheel).MoveTimer"))
 			st := p.All(calleeIs(colPkg + ".(*TimingWheel).SetTimer"))
 			ar := p.First(calleeIs("core/mathx.(Unstable).AroundDuration"))
 			if ar == nil || !isParam(ar.Call.Args[1], f.Params[3]) {
 				return false, "the expiry is not the jittered requested one"
 			}
-			switch p.Abs(existed).K {
-			case px.True:
-				if len(mv) != 1 || len(st) != 0 || !isParam(mv[0].Call.Args[1], keyP) || mv[0].Call.Args[2].Strip(false) != ar.Res {
-					return false, "an existing key's timer is not moved to the new expiry"
+			setOK := len(st) == 1 && len(mv) == 0 && isParam(st[0].Call.Args[1], keyP) && st[0].Call.Args[3].Strip(false) == ar.Res
+			if len(mv) == 0 {
+				// SetTimer arms a new key's timer and re-arms an existing key's (setTask), clamping a delay below one tick
+				if !setOK {
+					return false, "the key's timer is not (re)armed once with the jittered expiry"
 				}
-			case px.False:
-				if len(st) != 1 || len(mv) != 0 || !isParam(st[0].Call.Args[1], keyP) || st[0].Call.Args[3].Strip(false) != ar.Res {
-					return false, "a new key's timer is not set"
+				return true, ""
+			}
+			// a path that moves the timer: only for a key known to exist, and only with an expiry known not to be below
+			// one tick — MoveTimer runs the expiry callback at once for such a delay, and the callback deletes the key,
+			// i.e. the value just written (SetTimer clamps instead)
+			lk := p.First(px.KindIs(px.EvLookup))
+			if lk == nil || lk.Seq > ups[0].Seq {
+				return false, "prior presence not read before the store"
+			}
+			existed := findExtract(p, lk.Res, 1)
+			if p.Abs(existed).K != px.True {
+				return false, "a timer is moved for a key not known to exist"
+			}
+			if len(mv) != 1 || len(st) != 0 || !isParam(mv[0].Call.Args[1], keyP) || mv[0].Call.Args[2].Strip(false) != ar.Res {
+				return false, "an existing key's timer is not moved to the new expiry"
+			}
+			bounded := false
+			for _, b := range p.All(px.KindIs(px.EvBranch)) {
+				if b.Seq < mv[0].Seq && b.Cond != nil && dependsOn(p, b.Cond, ar.Res) {
+					bounded = true
 				}
-			default:
-				return false, "prior presence not tested"
+			}
+			if !bounded {
+				return false, "an existing key's timer is moved with an expiry that may be below one tick: MoveTimer then runs the expiry callback at once and the callback deletes the value just written (overwrite with a sub-second expiry ⇒ immediate miss); SetTimer clamps the delay to one tick"
 			}
 			return true, ""
 		})
